@@ -14,7 +14,9 @@ study_pb2 = svc.study_pb2
 TS = svc.TS
 
 OWNERS = ['o0', 'o1']
-SIDS = ['s0', 's1']
+# study ids that differ only in a LIKE wildcard / in case: a backend that
+# matches names with a pattern instead of equality confuses them
+SIDS = ['s_a', 'sxa', 'S_A']
 WORKERS = ['w1', 'w2', 'w3']
 STATES = ['ACTIVE', 'INACTIVE', 'COMPLETED', 'STATE_UNSPECIFIED']
 MUTATING = {'create_study', 'delete_study', 'set_state', 'create_trial',
@@ -26,7 +28,7 @@ MUTATING = {'create_study', 'delete_study', 'set_state', 'create_trial',
 def op_strategy(max_suggest=3, md=True, optimal=True, early_stop=True,
                 owners=None, sids=None):
   owner = st.sampled_from(owners or ['o0'] * 5 + ['o1'])
-  sid = st.sampled_from(sids or ['s0'] * 7 + ['s1'])
+  sid = st.sampled_from(sids or ['s_a'] * 6 + ['sxa', 'S_A'])
   tid = st.sampled_from([1, 1, 1, 2, 2, 2, 3, 3, 4, 5, 6, 9])
   worker = st.sampled_from(WORKERS)
   value = st.sampled_from([0.0, 1.0, 1.0, 2.5, -3.0, 7.0])
@@ -85,15 +87,19 @@ def history_strategy(min_ops=4, max_ops=40, **kw):
   # a useful start: the study exists and has a couple of suggestions
   prefix = st.sampled_from([
       [],
-      [['create_study', 'o0', 's0']],
-      [['create_study', 'o0', 's0'], ['suggest', 'o0', 's0', 'w1', 2]],
-      [['create_study', 'o0', 's0'], ['suggest', 'o0', 's0', 'w1', 2],
-       ['complete', 'o0', 's0', 1,
+      [['create_study', 'o0', 's_a']],
+      [['create_study', 'o0', 's_a'], ['suggest', 'o0', 's_a', 'w1', 2]],
+      [['create_study', 'o0', 's_a'], ['suggest', 'o0', 's_a', 'w1', 2],
+       ['complete', 'o0', 's_a', 1,
         {'final': 1.0, 'infeasible': False, 'reason': ''}]],
+      # sibling studies of one owner whose ids differ in a wildcard / in case
+      [['create_study', 'o0', 's_a'], ['create_study', 'o0', 'sxa'],
+       ['create_study', 'o0', 'S_A'], ['suggest', 'o0', 's_a', 'w1', 1],
+       ['suggest', 'o0', 'sxa', 'w1', 2], ['suggest', 'o0', 'S_A', 'w2', 1]],
       # two owners with a study of the same id, trials and operations in both
-      [['create_study', 'o0', 's0'], ['create_study', 'o1', 's0'],
-       ['suggest', 'o0', 's0', 'w1', 2], ['suggest', 'o1', 's0', 'w1', 2],
-       ['complete', 'o1', 's0', 1,
+      [['create_study', 'o0', 's_a'], ['create_study', 'o1', 's_a'],
+       ['suggest', 'o0', 's_a', 'w1', 2], ['suggest', 'o1', 's_a', 'w1', 2],
+       ['complete', 'o1', 's_a', 1,
         {'final': 1.0, 'infeasible': False, 'reason': ''}]],
   ])
   return st.tuples(prefix, st.lists(op_strategy(**kw), min_size=min_ops,
